@@ -40,6 +40,11 @@ func (g *gen) operand(w int) *refeval.J {
 
 func (g *gen) addrExpr() *refeval.J {
 	if g.r.Chance(1, 2) {
+		if g.r.Chance(1, 2) {
+			// a hot spot of a few bytes: accesses of different widths nest
+			// and overlap there
+			return refeval.ConstU(0x8010+uint64(g.r.Intn(8)), 8)
+		}
 		return refeval.ConstU(0x8000+uint64(g.r.Intn(32)), 8)
 	}
 	return refeval.BinJ(int(expr.Add), refeval.RegJ(g.reg(), 8), refeval.ConstU(uint64(g.r.Intn(16)), 8), 8)
